@@ -326,11 +326,26 @@ func checkC03(w *World, r *Report) {
 		r.Check(okU, "R03.5", "ProgStack.Update", ufd.Pos(), "pop; push(append(prog, inst))", "Update is not pop-append-push of exactly the given instruction at the end")
 	})
 
-	r.Rule("R03.6", "'(' is in, and ')' is not in, the set of tokens after which '*' / an NCName cannot be an operator: adding parentheses never flips the disambiguation of a neighbour", 2)
+	r.Rule("R03.6", "'(' is in, and ')' is not in, the set of tokens after which '*' / an NCName cannot be an operator, and so is every operator token of the precedence chain: adding the parentheses precedence implies never flips the disambiguation of a neighbour", 18)
 	r.guard("R03.6", func() {
 		set := tokenCannotPrecedeOperator(w)
 		r.Check(set.contains('('), "R03.6", "tokenCanBeOperator '('", token.NoPos, "'(' ∈ cannot-precede set", "'(' must be in the §3.7 set: after '(' a '*' is a name test")
 		r.Check(!set.contains(')'), "R03.6", "tokenCanBeOperator ')'", token.NoPos, "')' ∉ cannot-precede set", "')' must not be in the §3.7 set: after ')' a '*' is the multiply operator")
+		// every operator token of the precedence chain is in the set: otherwise an operand that starts with a
+		// name or '*' is lexed as an operator after that token, while the same operand in parentheses is not
+		ops := map[string]int64{"'*'": '*', "'/'": '/', "'|'": '|', "'+'": '+', "'-'": '-'}
+		for _, n := range []string{"AND", "OR", "MOD", "DIV", "DBLSLASH", "EQ", "NE", "LT", "LE", "GT", "GE"} {
+			ops[n] = xutilsTok(w, n)
+		}
+		var names []string
+		for n := range ops {
+			names = append(names, n)
+		}
+		sort.Strings(names)
+		for _, n := range names {
+			r.Check(set.contains(ops[n]), "R03.6", "tokenCanBeOperator after operator "+n, token.NoPos, "∈ cannot-precede set",
+				"operator "+n+" is missing from the §3.7 set: after it a function/element name is taken for an operator name and '*' for multiplication, so `a "+strings.Trim(n, "'")+" b` is rejected or mis-lexed while `a "+strings.Trim(n, "'")+" (b)` is not")
+		}
 	})
 
 	r.Rule("R03.7", "whitespace between tokens is skipped and carries no state: the lexer's skip arm is exactly {SP,TAB,LF,CR} with no effect; isWhitespace is the same set; LexName's look-aheads go through whitespace-skipping helpers; precToken is written only by SaveTokenType", 6)
